@@ -123,12 +123,12 @@ def harnesses(tier):
         hs.append(Sort(["f", "b"], 3))
         hs.append(Sort(["T", "i"], 2))
         hs.append(Sort(["us"], 3))          # microsecond ticks reach beyond 2**53 within years 1..9999
-        hs.append(Sort(["td"], 2))
+        hs.append(Sort(["td"], 2)); hs.append(Sort(["ns"], 2))
         hs.append(Prepared(Sort(["U"], 2))); hs.append(Prepared(Sort(["T", "i"], 2)))
     else:
         for k in ("U", "T", "f", "i"): hs.append(Prepared(Sort([k], 3)))
         kinds = ["f", "i", "T", "b", "D", "us", "U", "O"]
-        for k in kinds + ["td"]:
+        for k in kinds + ["td", "ns"]:
             hs.append(Sort([k], 4))
         for a in kinds:
             for b in kinds:
